@@ -411,6 +411,123 @@ Fixpoint redeem_scan (depths : list Z) (fee : Z) (c : qchain) (ex : list N) (hs 
   | h :: hs' => let '(ex', out) := redeem_at depths fee c ex h in out :: redeem_scan depths fee c ex' hs'
   end.
 
+(* ---------- the exchange-rate controller (extension round) ----------
+   consensus/misc/rewards.go CalculateKQuai and core/exchange_controller.go
+   CalculateBetaFromMiningChoiceAndConversions, exact integer arithmetic, branch by branch.
+   common.LogBig (mathutil.BinaryLog) is NOT modelled: LogBig(minerDifficulty) [d2] and
+   LogBig(bestDiff) [logbest] are inputs computed by the harness with the real function.
+   None = big.Int division by zero (Go panics). *)
+
+(* CalculateKQuai(parentExchangeRate k, minerDifficulty d, blockNumber bn, xbStar xb) *)
+Definition calc_kquai (k d d2 bn xb : Z) : option Z :=
+  let d1 := two64 * d in
+  let denum := d1 * one_over_alpha in
+  let adder := k * denum in
+  let num0 := xb * d2 - d1 in
+  let inc := 0 <? num0 in                                   (* kQuaiIncrease *)
+  let num1 := if (kquai_change_block <? bn) && inc
+              then (if bn <? kawpow_fork_block then num0 / 3 else num0)
+              else num0 in
+  if denum =? 0 then None else Some (Z.quot (num1 * k + adder) denum).
+
+(* the range loop over params.KQuaiChangeTable: first entry that returns wins *)
+Fixpoint change_table_scan (tab : list (Z * Z)) (bn parent : Z) : option Z :=
+  match tab with
+  | [] => None
+  | (b, pct) :: rest =>
+      if bn =? b then
+        (if bn =? kquai_change_block then Some exchange_rate0 else Some (parent * pct / 100))
+      else if (b <? bn) && (bn <? b + kquai_change_hold_interval) then Some parent
+      else change_table_scan rest bn parent
+  end.
+
+(* the three fork regimes in front of the controller proper: Some r = the function returns r *)
+Definition fork_override (bn parent : Z) : option Z :=
+  if bn <? kawpow_fork_block then change_table_scan kquai_change_table bn parent
+  else if (kawpow_fork_block <=? bn) && (bn <? sha_equivalent_fork_block) then
+    if bn =? kquai_reset_after_kawpow_fork_block then Some exchange_rate_reset_after_kawpow
+    else if (kquai_reset_after_kawpow_fork_block <? bn)
+            && (bn <? kquai_reset_after_kawpow_fork_block + exchange_rate_hold_interval)
+         then Some parent else None
+  else
+    if bn =? sha_equivalent_fork_block then Some exchange_rate_after_sha_fork
+    else if (sha_equivalent_fork_block <? bn)
+            && (bn <? sha_equivalent_fork_block + exchange_rate_hold_interval_after_sha)
+         then Some parent else None.
+
+(* the token choice window as runs (Diff, how many consecutive entries carry it); the code sums
+   the TokenChoiceSetSize entries one by one *)
+Definition total_diff (runs : list (Z * Z)) : Z :=
+  fold_right (fun p acc => fst p * snd p + acc) 0 runs.
+
+Record ctl_in := mkCtl {
+  c_bn : Z;                  (* NumberU64(PRIME_CTX) of the block handed to the controller (Append: the parent) *)
+  c_runs : list (Z * Z);     (* Diff column of the updated token choice set *)
+  c_logbest : Z;             (* common.LogBig(bestDiff) *)
+  c_md : Z;                  (* MinerDifficulty() of that block *)
+  c_logmd : Z                (* common.LogBig(MinerDifficulty()) *)
+}.
+
+(* CalculateBetaFromMiningChoiceAndConversions(_, block, parentExchangeRate, newTokenChoiceSet) *)
+Definition beta_rate (parent : Z) (c : ctl_in) : option Z :=
+  if c_bn c <? controller_kick_in_block + token_choice_set_size then Some exchange_rate0
+  else
+    match fork_override (c_bn c) parent with
+    | Some r => Some r
+    | None =>
+        let best := total_diff (c_runs c) / token_choice_set_size in
+        if c_logbest c =? 0 then None
+        else calc_kquai parent (c_md c) (c_logmd c) (c_bn c) (best * two64 / c_logbest c)
+    end.
+
+(* a rate trajectory: the controller applied block after block, each time to the rate it produced *)
+Definition ctl_step (k : option Z) (c : ctl_in) : option Z :=
+  match k with None => None | Some k => beta_rate k c end.
+Definition rate_trajectory (k0 : Z) (cs : list ctl_in) : option Z := fold_left ctl_step cs (Some k0).
+
+(* Slice.Append, PRIME: the new rate is the stored one while the update is paused, otherwise the
+   controller's (on the parent block, from the rate in this block's header); then the conversion
+   block reprices with it *)
+Definition prime_block (disc : Z -> Z -> Z) (h : hdr) (stored : option Z) (c : ctl_in) (etxs : list etx)
+  : option (Z * result) :=
+  match (match stored with Some k => Some k | None => beta_rate (h_k h) c end) with
+  | None => None
+  | Some knew => match reprice disc h knew etxs with None => None | Some r => Some (knew, r) end
+  end.
+
+(* ---------- the whole pipeline after Prime: what one repriced ETX becomes in its zone ----------
+   core/state_processor.go Process: Quai->Qi conversion branch (kick-in guard, TxGas guard, mint),
+   ConversionRevert branches (Quai refund = AddBalance of the value; Qi refund = trimmed split
+   metered by the ETX gas), Qi->Quai conversion (recorded, paid by RedeemLockedQuai = [pay_one]). *)
+Inductive outcome :=
+| ONone                      (* not a conversion: ordinary ETX processing *)
+| OCreditQi (a : Z)          (* locked Qi outputs minted for the recipient (sum of denominations) *)
+| OCreditQuai (a : Z)        (* Quai credited to the recipient at inclusion + ConversionLockPeriod *)
+| ORefundQuai (a : Z)        (* Quai returned to the sender *)
+| ORefundQi (a : Z).         (* Qi outputs returned to the refund address *)
+
+Definition minted_total (x : Z * Z * Z * bool) : Z := fst (fst (fst x)).
+
+(* destination of a converted Quai->Qi ETX: (ptn, ETX gas, value) -> Qi minted *)
+Definition settle_qi (ptn gas v : Z) : Z :=
+  if ptn <? controller_kick_in_block then 0
+  else if gas <? tx_gas then 0
+  else minted_total (mint v (gas - tx_gas)).
+
+Definition settle_quai (fee : Z) (rcpt_exists : bool) (v : Z) : Z :=
+  if rcpt_exists then v else if v <? fee then 0 else v - fee.
+
+Definition settle (ptn gas fee : Z) (rcpt_exists : bool) (o : out) : outcome :=
+  match o_kind o with
+  | KOther => ONone
+  | KConverted =>
+      if e_toqi (o_e o) then OCreditQi (settle_qi ptn gas (o_value o))
+      else OCreditQuai (settle_quai fee rcpt_exists (o_value o))
+  | KReverted =>
+      if e_toqi (o_e o) then ORefundQuai (o_value o)
+      else ORefundQi (minted_total (refund_qi (o_value o) gas))
+  end.
+
 (* ---------- correspondence cases ---------- *)
 
 Definition kind_code (k : kind) : N :=
@@ -431,7 +548,10 @@ Inductive case_body :=
 | CReprice (h : hdr) (knew : Z) (table : list (Z * Z * Z)) (etxs : list etx)
            (obs : option (list (N * N * Z) * Z * Z))
 | COrigin (ptn : Z) (b : bals) (tr : list event) (obs_cache : list (N * N * Z)) (obs_bals : list (N * Z))
-| CRedeem (fee : Z) (ex : list N) (c : qchain) (hs : list Z) (obs : list (list (N * Z))).
+| CRedeem (fee : Z) (ex : list N) (c : qchain) (hs : list Z) (obs : list (list (N * Z)))
+| CKQuai (k d d2 bn xb : Z) (obs : option Z)
+| CBeta (parent : Z) (c : ctl_in) (obs : option Z)
+| CSettleQi (ptn gas v : Z) (o_total : Z).
 Definition case := (N * case_body)%type.
 
 Fixpoint zz_eqb (a b : list (Z * Z)) : bool :=
@@ -459,6 +579,9 @@ Fixpoint lnz_eqb (a b : list (list (N * Z))) : bool :=
   | x :: a', y :: b' => nz_eqb x y && lnz_eqb a' b'
   | _, _ => false
   end.
+
+Definition oz_eqb (a b : option Z) : bool :=
+  match a, b with None, None => true | Some x, Some y => x =? y | _, _ => false end.
 
 Definition project (r : result) : list (N * N * Z) * Z * Z :=
   (map (fun o => (e_id (o_e o), kind_code (o_kind o), o_value o)) (r_out r), r_actual r, r_realized r).
@@ -490,6 +613,9 @@ Definition case_ok (c : case) : bool :=
       && Nat.eqb (length (o_stack s)) 0 && Nat.eqb (o_skip s) 0
   | CRedeem fee ex c hs obs =>
       lnz_eqb (map (map (fun t => (snd (fst t), snd t))) (redeem_scan lockup_depths fee c ex hs)) obs
+  | CKQuai k d d2 bn xb obs => oz_eqb (calc_kquai k d d2 bn xb) obs
+  | CBeta parent c obs => oz_eqb (beta_rate parent c) obs
+  | CSettleQi ptn gas v ot => settle_qi ptn gas v =? ot
   end.
 Definition mismatches (cs : list case) : list N :=
   map fst (filter (fun c => negb (case_ok c)) cs).
